@@ -26,7 +26,7 @@ TInit == /\ TLCSet(1, {})
          /\ frame = T.frame
          /\ unlock = [i \in 1..Len(T.shape) |-> 0]
          /\ offered = [i \in 1..Len(T.shape) |-> {p[1] : p \in Pairs(T.pre[i])}]
-         /\ kcReg = {} /\ kcSec = {} /\ npass = 0
+         /\ kcReg = {} /\ kcSec = {} /\ kcScr = FALSE /\ npass = 0
 
 PassOf(e) == [mech |-> e.mech, K |-> ToSet(e.K), I |-> ToSet(e.I), ht |-> e.ht, scr |-> e.scr,
               reg |-> ToSet(e.reg), sec |-> ToSet(e.sec), fresh |-> e.fresh]
